@@ -10,11 +10,15 @@ files = [(inp[k+2*i], inp[k+2*i+1]) for i in range(nf)]; k += 2*nf
 q, maxdup, seq, P, np_ = inp[k:k+5]; k += 5
 d0 = inp[k:k+np_]; k += np_; ieq = inp[k:k+np_]; k += np_
 print(f'PL={PL} total={total} files={files} q={q} maxdup={maxdup} seq={seq} P={P} np={np_} done0={d0} initEq={ieq}')
-names = {1:'have',2:'bitfield',3:'haveall',4:'allowedfast',5:'unchoke',6:'choke',7:'reject',8:'piece',9:'WRITEDONE',10:'snub',11:'disconnect',12:'connect',14:'havenone'}
+names = {1:'have',2:'bitfield',3:'haveall',4:'allowedfast',5:'unchoke',6:'choke',7:'reject',8:'piece',9:'WRITEDONE',10:'snub',11:'disconnect',12:'connect',13:'exthandshake',14:'havenone'}
 o = 1
 n = 0
 while inp[k] != -1:
     ev = inp[k:k+6]; k += 6; bits = inp[k:k+np_]; k += np_; asg = inp[k:k+P]; k += P
+    frames = []
+    for p in range(P):
+        c = inp[k]; k += 1
+        frames.append([tuple(inp[k+4*i:k+4*i+4]) for i in range(c)]); k += 4*c
     per = 3*np_ + 3*P + 5
     st = obs[o:o+per]; o += per
     req = []
@@ -22,16 +26,15 @@ while inp[k] != -1:
         c = obs[o]; req.append(obs[o+1:o+1+c]); o += 1+c
     extra = ''
     if ev[0] == 9:
-        idx_, ok, nw = obs[o:o+3]; o += 3; ws = obs[o:o+4*nw]; o += 4*nw
-        extra = f' write idx={idx_} ok={ok} writes={ws}'
+        idx_, ok, werr = obs[o:o+3]; o += 3; ws = []
+        if not werr:
+            nw = obs[o]; o += 1; ws = obs[o:o+4*nw]; o += 4*nw
+        extra = f' write idx={idx_} ok={ok} werr={werr} writes={ws}'
     done = st[0:np_]; wr = st[np_:2*np_]; peers = [tuple(st[3*np_+3*i:3*np_+3*i+3]) for i in range(P)]
     tail = st[3*np_+3*P:]
     a = ['-' if x < 0 else f'{x//2}{"af" if x%2 else ""}' for x in asg]
-    print(f'{n:3d} {names.get(ev[0],ev[0]):10s} p={ev[1]} a={ev[2]} b={ev[3]} c={ev[4]} g={ev[5]} bits={bits if ev[0]==2 else ""} | asg={a} done={done} wr={wr} peers(closed,int,pend)={peers} ban,np,compl,st,susp={tail} req={req}{extra}')
+    fr = {i: f for i, f in enumerate(frames) if f}
+    print(f'{n:3d} {names.get(ev[0],ev[0]):11s} p={ev[1]} a={ev[2]} b={ev[3]} c={ev[4]} g={ev[5]} bits={bits if ev[0]==2 else ""} | asg={a} done={done} wr={wr} peers(cl,int,pend)={peers} ban,np,compl,st,susp={tail} req={req}{extra} frames={fr}')
     n += 1
-k += 1
-for p in range(P):
-    c = inp[k]; k += 1
-    fr = [tuple(inp[k+4*i:k+4*i+4]) for i in range(c)]; k += 4*c
-    print(f'frames p{p}:', fr)
+print('expect', inp[k+1])
 print('final', obs[o:])
